@@ -2,6 +2,7 @@
   C08  Treespec inspection, constructors, transform and compose are consistent.
 -/
 import OptreeModel.Model.Serial
+import OptreeModel.Lemmas.EncInspect
 
 namespace Optree
 
@@ -157,5 +158,71 @@ theorem C08_repr_affixes (names : Names) (sp : Spec) (r : String) (h : toString 
 
 example : (match toString stdNames (makeLeaf true) with | .ok s => s == "PyTreeSpec(*, NoneIsLeaf)" | _ => false) = true := by decide
 example : (match toString stdNames (makeNone false) with | .ok s => s == "PyTreeSpec(None)" | _ => false) = true := by decide
+
+/-! ### refinement: the index walkers on encodings are the tree operations
+
+`STree` (Model/STree.lean) is the shape a treespec stands for, `STree.spec` its treespec (post-order
+array with counts).  For every shape, of any size and any pattern of sibling sub-tree sizes: -/
+
+/-- **`children()` returns the child treespecs in order** (offset slicing by `num_nodes`, right to left) -/
+theorem C08_children_refines (s : STree) (nil : Bool) (ns : String) :
+    children (s.spec nil ns) = .ok (s.children.map fun c => c.spec nil ns) := children_enc s nil ns
+
+/-- **`child(i)` is the `i`-th child under Python index semantics**, `IndexError` exactly outside `[-n, n)` -/
+theorem C08_child_refines (s : STree) (nil : Bool) (ns : String) (index : Int) :
+    child (s.spec nil ns) index =
+      match normIndex index s.children.length with
+      | Option.none => .error .index
+      | some j =>
+          match s.children[j]? with
+          | some c => .ok (c.spec nil ns)
+          | Option.none => .error .index := child_enc s nil ns index
+
+/-- `child(i)` agrees with `children()[i]` for every valid index, negative ones included -/
+theorem C08_child_of_children (s : STree) (nil : Bool) (ns : String) (index : Int) (j : Nat)
+    (hj : normIndex index s.children.length = some j) :
+    ∃ cs c, children (s.spec nil ns) = .ok cs ∧ cs[j]? = some c ∧ child (s.spec nil ns) index = .ok c := by
+  have hlt := normIndex_lt hj
+  refine ⟨_, (s.children[j]).spec nil ns, children_enc s nil ns, ?_, ?_⟩
+  · simp [hlt]
+  · rw [child_enc, hj]; simp [hlt]
+
+/-- the counts of a node are the sums over its children (plus the node itself) -/
+theorem C08_counts_sum (i : NInfo) (cs : List STree) (nil : Bool) (ns : String) :
+    ((STree.node i cs).spec nil ns).numNodes = (cs.map fun c => (c.spec nil ns).numNodes).sum + 1 ∧
+    ((STree.node i cs).spec nil ns).numLeaves = (cs.map fun c => (c.spec nil ns).numLeaves).sum ∧
+    ((STree.node i cs).spec nil ns).numChildren = cs.length := by
+  refine ⟨?_, ?_, ?_⟩
+  · simp only [STree.spec_numNodes, STree.size, STree.sizeL_eq_sum]
+  · simp only [STree.spec_numLeaves, STree.leaves, STree.leavesL_eq_sum]
+  · simp [STree.spec, Spec.numChildren, STree.enc_getLast?, STree.root, NInfo.toNode]
+
+/-- **`compose` substitutes the inner shape for every leaf of the outer one**; the result is again the
+encoding of a well-formed shape; leaves multiply -/
+theorem C08_compose_refines (a b : STree) (ha : a.wf = true) (hb : b.wf = true) (nil : Bool)
+    (ns ns' : String) (hc : nsCompatible ns ns' = true) :
+    compose (a.spec nil ns) (b.spec nil ns') = .ok ((a.subst b).spec nil (mergeNs ns ns')) ∧
+    (a.subst b).wf = true ∧ (a.subst b).leaves = a.leaves * b.leaves :=
+  ⟨compose_enc a b ha nil ns ns' hc, STree.subst_wf b hb a ha, STree.subst_leaves b a⟩
+
+/-- composing with the leaf treespec changes nothing; composing the leaf with `b` gives `b` -/
+theorem C08_compose_leaf (a : STree) : STree.leaf.subst a = a := rfl
+
+mutual
+theorem C08_compose_leaf_right : ∀ a : STree, a.subst .leaf = a
+  | .leaf => rfl
+  | .node i cs => by simp [STree.subst, C08_compose_leaf_rightL cs]
+theorem C08_compose_leaf_rightL : ∀ cs : List STree, STree.substL cs .leaf = cs
+  | [] => rfl
+  | c :: cs => by simp [STree.substL, C08_compose_leaf_right c, C08_compose_leaf_rightL cs]
+end
+
+/-- non-vacuity: sibling sub-trees of sizes 1, 3, 2 -/
+def C08_demo : STree :=
+  .node ⟨.tuple, .none, Option.none, Option.none, Option.none⟩
+    [.leaf, .node ⟨.list, .none, Option.none, Option.none, Option.none⟩ [.leaf, .leaf],
+     .node ⟨.tuple, .none, Option.none, Option.none, Option.none⟩ [.leaf]]
+
+example : C08_demo.wf = true ∧ C08_demo.size = 7 ∧ (C08_demo.subst C08_demo).leaves = 16 := by decide
 
 end Optree
